@@ -272,7 +272,9 @@ Section Pool.
     pose proof (nth_error_lt _ _ _ Hk) as Hlt.
     destruct I as [Inp Im Iwf Ics Imx Imid Iwg [Iws1 Iws2] Iwait (Ie & Ica & Isc) Ieb (Ip1 & Ip2 & Ip3 & Ip4) Idr].
     unfold ph in *.
-    constructor; simpl; unfold ph; simpl; auto; try lia.
+    constructor; simpl; unfold ph; simpl.
+    - assumption.
+    - assumption.
     - apply forall_set_nth; auto. intros; eauto.
     - apply (forall_set_nth (fun j wj => in_cs wj = true -> m = Some j)).
       + intros Hc. destruct Hm as [(-> & E)|[(_ & -> & _)|(_ & _ & E)]]; auto; try congruence.
@@ -289,9 +291,13 @@ Section Pool.
       intros j wj Hne Hj. specialize (Imid j wj Hj). destruct Hra as [(-> & ->)|Hc]; auto.
       intros Hcj. exfalso. pose proof (Ics j wj Hj Hcj). pose proof (Ics k wk Hk Hc). congruence.
     - unfold undone in *. pose proof (count_set_nth (fun wk => negb (is_done wk)) k wk' wk (ws s) Hk) as Hc.
-      cbv beta in Hc. rewrite Hd in Hc. simpl in Hc. destruct (is_done wk'); simpl in *; lia.
-    - rewrite set_nth_length. split; auto. intros E9. rewrite (Iws1 E9) in Hlt. simpl in Hlt. lia.
-    - pose proof (count_set_nth is_exited k wk' wk (ws s) Hk) as Hc. lia.
+      cbv beta in Hc. rewrite Hd in Hc. simpl in Hc. clear - Hc Hg Iwg. destruct (is_done wk'); simpl in *; lia.
+    - rewrite set_nth_length. split; auto. intros E9. rewrite (Iws1 E9) in Hlt. simpl in Hlt. clear - Hlt. lia.
+    - intros. clear - H Hph. lia.
+    - auto.
+    - pose proof (count_set_nth is_exited k wk' wk (ws s) Hk) as Hc. clear - Hc He Ieb. lia.
+    - auto.
+    - intros. clear - H Hph. lia.
   Qed.
 
   Lemma body_nonempty : exists a r, c_body c = a :: r /\ pc_in_cs (c_body c) = false.
@@ -581,37 +587,42 @@ Section Measure.
       destruct (pend s) as [|[b|] p] eqn:Epd; try discriminate.
       destruct (c_select c && cancelled s); [|discriminate]. inversion H; subst; clear H. simpl. rewrite Ep. lia.
     - (* worker *)
-      unfold step_worker in H. unfold measure. rewrite Ep.
+      unfold step_worker in H.
       destruct (nth_error (ws s) k) as [wk|] eqn:Hk; [|discriminate].
+      assert (Hpanic : measure c (set_panic s) < measure c s).
+      { unfold measure. simpl. rewrite Ep. lia. }
+      assert (Hgen : forall s0 wk',
+                  pend s0 = pend s -> closed s0 = closed s -> ppolled s0 = ppolled s ->
+                  ws s0 = ws s -> mainpc s0 = mainpc s -> panicked s0 = false ->
+                  List.length (buf s0) * (List.length (c_body c) + 2) + w_cost wk' <
+                  List.length (buf s) * (List.length (c_body c) + 2) + w_cost wk ->
+                  measure c (set_worker s0 k wk') < measure c s).
+      { intros s0 wk' E1 E2 E3 E5 E6 E7 Hc. unfold measure. simpl. rewrite E1, E2, E3, E5, E6, E7, Ep.
+        pose proof (wsum_set_nth k wk' _ _ Hk) as Hw. unfold wsum in Hw.
+        remember (fold_right (fun wk a => w_cost wk + a) 0 (set_nth k wk' (ws s))) as X1.
+        remember (fold_right (fun wk a => w_cost wk + a) 0 (ws s)) as X2.
+        remember (fold_right (fun i a => item_cost (List.length (c_body c)) i + a) 0 (pend s)) as X3.
+        remember (fold_right (fun a n => m_cost c a + n) 0 (mainpc s)) as X4.
+        clear - Hw Hc. lia. }
       destruct wk as [stt trc tab]; simpl in H.
       destruct stt as [|pc cur|cur| |].
       + destruct (buf s) as [|b r] eqn:Eb.
-        * destruct (closed s); [|discriminate]. inversion H; subst; clear H. simpl. rewrite Ep, Eb.
-          pose proof (wsum_set_nth k (mk_worker WExit trc tab) _ _ Hk) as Hw. unfold wsum in Hw. simpl in *. lia.
-        * inversion H; subst; clear H. simpl. rewrite Ep.
-          pose proof (wsum_set_nth k (mk_worker (next_st (c_body c) b) trc tab) _ _ Hk) as Hw.
-          rewrite next_st_cost in Hw. unfold wsum in Hw. simpl in *. lia.
+        * destruct (closed s) eqn:Ec; [|discriminate]. inversion H; subst; clear H.
+          apply Hgen; simpl; auto. rewrite Eb. unfold w_cost; simpl. lia.
+        * inversion H; subst; clear H.
+          apply Hgen; simpl; auto. rewrite next_st_cost. unfold w_cost; simpl. lia.
       + destruct pc as [|a pc]; [discriminate|].
-        assert (Hgen : forall s0 wk', w_cost wk' <= 3 + List.length pc ->
-                  pend s0 = pend s -> closed s0 = closed s -> ppolled s0 = ppolled s -> buf s0 = buf s ->
-                  ws s0 = ws s -> mainpc s0 = mainpc s -> panicked s0 = false ->
-                  measure c (set_worker s0 k wk') < measure c s).
-        { intros s0 wk' Hc E1 E2 E3 E4 E5 E6 E7. unfold measure. simpl. rewrite E1, E2, E3, E4, E5, E6, E7, Ep.
-          pose proof (wsum_set_nth k wk' _ _ Hk) as Hw. unfold wsum in Hw. simpl in *. lia. }
-        unfold measure in Hgen. rewrite Ep in Hgen.
         destruct a as [| | | |[]|[]]; simpl in H;
           try (destruct (b_fail cur)); try (destruct (mutex s)); try discriminate;
-          inversion H; subst; clear H;
-          try (apply Hgen; simpl; auto; rewrite ?next_st_cost; simpl; lia).
-        simpl. lia.
+          inversion H; subst; clear H; auto;
+          (apply Hgen; simpl; auto; rewrite ?next_st_cost; unfold w_cost; simpl; lia).
       + destruct (eclosed s).
-        * inversion H; subst; clear H. simpl. lia.
-        * destruct (List.length (ebuf s) <? c_ecap c); [|discriminate]. inversion H; subst; clear H. simpl. rewrite Ep.
-          pose proof (wsum_set_nth k (mk_worker WExit trc tab) _ _ Hk) as Hw. unfold wsum in Hw. simpl in *. lia.
+        * inversion H; subst; clear H. auto.
+        * destruct (List.length (ebuf s) <? c_ecap c); [|discriminate]. inversion H; subst; clear H.
+          apply Hgen; simpl; auto. unfold w_cost; simpl. lia.
       + destruct (wg s).
-        * inversion H; subst; clear H. simpl. lia.
-        * inversion H; subst; clear H. simpl. rewrite Ep.
-          pose proof (wsum_set_nth k (mk_worker WDone trc tab) _ _ Hk) as Hw. unfold wsum in Hw. simpl in *. lia.
+        * inversion H; subst; clear H. auto.
+        * inversion H; subst; clear H. apply Hgen; simpl; auto. unfold w_cost; simpl. lia.
       + discriminate.
   Qed.
 
